@@ -937,6 +937,47 @@ func c09Pair1(c *core.Ctx, p *c09Pair, thorough bool) {
 			}
 		}
 	}
+	// correlated priors: some *other* part of the element already holds exactly the octets of the value being set while
+	// the field itself holds something else (a setter that compares or copies against the wrong field shows only then)
+	if a.N >= 0 {
+		span := a.R1 - a.R0 + 1
+		for _, size := range sizes {
+			for _, pat := range []int{0, 1, 2} {
+				arg := make([]byte, aw)
+				for i := range arg {
+					switch pat {
+					case 0:
+						arg[i] = byte(0x31 + 0x11*i)
+					case 1:
+						arg[i] = 0x01
+					case 2:
+						arg[i] = byte(0xFE - i)
+					}
+				}
+				if p.argT.Kind() == reflect.Slice || p.argT.Kind() == reflect.Array {
+					arg = arg[:0]
+					for i := 0; i < (a.N+7)/8; i++ {
+						arg = append(arg, byte(0x31+0x11*i+pat))
+					}
+				}
+				img := make([]byte, span)
+				copy(img[max(0, span-len(arg)):], arg[max(0, len(arg)-span):])
+				for o := 0; o+span <= size; o++ {
+					if o+span > a.R0 && o <= a.R1 {
+						continue // overlaps the field itself
+					}
+					for _, fill := range []byte{0x00, 0xFF} {
+						prior := bytes.Repeat([]byte{fill}, size)
+						copy(prior[o:], img)
+						for k := a.R0; k <= a.R1; k++ {
+							prior[k] = ^img[k-a.R0]
+						}
+						run(prior, fill, uint16(size), arg)
+					}
+				}
+			}
+		}
+	}
 	c.Sample("accessor", 6, func() any {
 		return map[string]any{"accessor": p.t.Name + "." + p.field, "annotation": p.annText, "storage": e.kind, "cases": evals}
 	})
@@ -950,7 +991,7 @@ func init() {
 		ID: "C09", Level: "exploration", Run: c09Run,
 		Shards: func(string) int { return 16 },
 		Rule: func(tier string) string {
-			return "every Get/Set pair of every nasType element (registry generated from the current tree) x prior contents x argument values: single-octet fields over all 256 priors of the host octet x argument values (all 256 in thorough) with the other octets in {00,FF,A5}; multi-octet bit fields over all field values x host-octet priors (all 2^16 in thorough); copy fields and INF fields over fill/position patterns and short/equal/long arguments; oracle computed from the pinned annotation only (Get = annotated bits; Set changes exactly those bits; Iei/Len/other bits and storage length unchanged). Then the mask helper GetBitMask over every (ub, lb) in every ordered pair of calls, and a second pass over the accessors in reverse order (an accessor must not depend on which accessors ran before it). The DNN value accessor (label form): 6 prior values (installed by SetDNN or like a decoder) x ~900 new values built from 1..3 labels of lengths {0,1,3,30,61..64,97..101}: afterwards the element either holds exactly the new value's labels with the matching length (and GetDNN returns the value) or is exactly as before (a refused set changes nothing); values with labels of 1..62 octets and at most 100 octets in label form must be accepted. A case is (accessor, prior contents, argument); distinct_nontrivial counts accessor pairs exercised."
+			return "every Get/Set pair of every nasType element (registry generated from the current tree) x prior contents x argument values: single-octet fields over all 256 priors of the host octet x argument values (all 256 in thorough) with the other octets in {00,FF,A5}; multi-octet bit fields over all field values x host-octet priors (all 2^16 in thorough); copy fields and INF fields over fill/position patterns and short/equal/long arguments; correlated priors (every other position of the element already holding exactly the octets of the value being set while the field holds their complement); oracle computed from the pinned annotation only (Get = annotated bits; Set changes exactly those bits; Iei/Len/other bits and storage length unchanged). Then the mask helper GetBitMask over every (ub, lb) in every ordered pair of calls, and a second pass over the accessors in reverse order (an accessor must not depend on which accessors ran before it). The DNN value accessor (label form): 6 prior values (installed by SetDNN or like a decoder) x ~900 new values built from 1..3 labels of lengths {0,1,3,30,61..64,97..101}: afterwards the element either holds exactly the new value's labels with the matching length (and GetDNN returns the value) or is exactly as before (a refused set changes nothing); values with labels of 1..62 octets and at most 100 octets in label form must be accepted. A case is (accessor, prior contents, argument); distinct_nontrivial counts accessor pairs exercised."
 		},
 		Assumptions: []string{
 			"the accessor annotations (pinned in mc/spec/accessors.json) are the documented layout; their agreement with the TS 24.501 figures is assumed",
